@@ -27,27 +27,47 @@ package atree
 //@ ghost ecopy : fn(el ref) bool
 
 //@ iface Storable.CanCopyNonRefSimple() (ok)
+//@   conform all
+//@   serves C17
 //@   ensures ok == ccopy(recv)
 //@   pure
 
 //@ # a copy is offered exactly when CanCopyNonRefSimple says so, and then it succeeds; the copy has the size of the original
 //@ iface Storable.CopyNonRefSimple() (c, err)
+//@   conform all
+//@   serves C17
 //@   ensures ccopy(recv) ==> err == nil
 //@   ensures err == nil ==> c != nil && bs(c) == bs(recv)
 //@   modifies alloc
 
 //@ iface element.canCopyNonRefSimple() (ok)
+//@   conform all
+//@   serves C17
 //@   ensures ok == ecopy(recv)
 //@   pure
 
 //@ iface element.copyNonRefSimple() (c, err)
+//@   conform all
+//@   serves C17
 //@   ensures ecopy(recv) ==> err == nil
 //@   ensures err == nil ==> c != nil && fresh(c) && esz(c) == old(esz(recv))
 //@   ensures err == nil && is(recv, *singleElement) ==> is(c, *singleElement)
 //@   modifies alloc
 
 //@ iface elements.canCopyNonRefSimple() (ok)
+//@   conform all
+//@   serves C17
 //@   pure
+
+//@ # a reference to a separately stored collision group is never copyable: the copy would refer to the SAME slab, which would then be
+//@ # owned twice (C09); so a map holding an external group does not offer the simple copy at all
+//@ axiom (forall el element :: is(el, *externalCollisionGroup) ==> !ecopy(el)) because "definition of ecopy on references to external collision groups"
+//@ func (e *externalCollisionGroup) canCopyNonRefSimple() (ok)  serves C09 C17
+//@   ensures !ok
+//@   pure
+//@ func (e *externalCollisionGroup) copyNonRefSimple() (c, err)  serves C09 C17
+//@   ensures err != nil && c == nil
+//@   modifies alloc
 
 //@ func (e *singleElement) canCopyNonRefSimple() (ok)  serves C17
 //@   requires e.key != nil && e.value != nil
@@ -143,12 +163,14 @@ package atree
 //@        origin(as(r.root, *ArrayDataSlab).elements) != origin(as(a.root, *ArrayDataSlab).elements)
 //@   ensures[C03 C17] err == nil ==> sto[hdrOf(r.root).slabID] == r.root && has(stored, r.root)
 //@   ensures[C17] err != nil ==> r == nil
-//@   modifies ghost.sto, ghost.stored, ghost.touched, alloc
+//@   modifies ghost.sto, ghost.issued, ghost.stored, ghost.touched, alloc
 
 //@ # ---- map side
 //@ ghost escopy : fn(es ref) bool
 
 //@ iface elements.copyNonRefSimple() (r, err)
+//@   conform all
+//@   serves C17
 //@   ensures escopy(recv) ==> err == nil
 //@   ensures err == nil ==> r != nil && fresh(r) && r != recv && (is(recv, *hkeyElements) ==> is(r, *hkeyElements)) && (is(recv, *singleElements) ==> is(r, *singleElements)) &&
 //@        elsSize(r) == old(elsSize(recv))
@@ -177,6 +199,8 @@ package atree
 //@   modifies ghost.touched, alloc
 
 //@ iface DigesterBuilder.SetSeed(k0, k1)
+//@   conform all
+//@   serves C04
 //@   modifies basicDigesterBuilder.k0, basicDigesterBuilder.k1
 
 //@ func (m *OrderedMap) CopyNonRefSimple(address, digestBuilder) (r, err)  serves C03 C17
@@ -189,7 +213,7 @@ package atree
 //@        as(r.root, *MapDataSlab).extraData.Seed == as(m.root, *MapDataSlab).extraData.Seed
 //@   ensures[C03 C17] err == nil ==> sto[mhdrOf(r.root).slabID] == r.root && has(stored, r.root)
 //@   ensures[C17] err != nil ==> r == nil
-//@   modifies basicDigesterBuilder.k0, basicDigesterBuilder.k1, ghost.sto, ghost.stored, ghost.touched, alloc
+//@   modifies basicDigesterBuilder.k0, basicDigesterBuilder.k1, ghost.sto, ghost.issued, ghost.stored, ghost.touched, alloc
 
 //@ # ---------------------------------------------------------------- array.go / array_conversion.go: construction (C17)
 
@@ -201,7 +225,7 @@ package atree
 //@        as(a.root, *ArrayDataSlab).header.slabID.address == address
 //@   ensures[C03] err == nil ==> sto[as(a.root, *ArrayDataSlab).header.slabID] == a.root && has(stored, a.root)
 //@   ensures err != nil ==> a == nil && categorised(err)
-//@   modifies ghost.sto, ghost.stored, ghost.touched, alloc
+//@   modifies ghost.sto, ghost.issued, ghost.stored, ghost.touched, alloc
 
 //@ # single-slab construction from a prepared element list: only offered when the resulting root slab is within the slab size limit
 //@ # (the structure must be valid exactly as if built by individual operations: a root leaf never exceeds maxThreshold)
@@ -213,11 +237,11 @@ package atree
 //@        as(a.root, *ArrayDataSlab).header.size == 5 + elementSize && as(a.root, *ArrayDataSlab).header.size <= maxThreshold
 //@   ensures[C03] err == nil ==> sto[as(a.root, *ArrayDataSlab).header.slabID] == a.root && has(stored, a.root)
 //@   ensures err != nil ==> a == nil
-//@   modifies ghost.sto, ghost.stored, ghost.touched, alloc
+//@   modifies ghost.sto, ghost.issued, ghost.stored, ghost.touched, alloc
 
 //@ func ByteSliceToByteArray(storage, address, typeInfo, data, estimatedByteStorableSize) (a, err)  serves C05 C17
 //@   requires storage != nil
-//@   modifies heap, ghost.sto, ghost.stored, ghost.touched, ghost.notified, alloc
+//@   modifies heap, ghost.sto, ghost.issued, ghost.stored, ghost.touched, ghost.notified, ghost.updFail, alloc
 //@   loop 1: invariant 0 <= i && i <= len(data) && len(elements) == len(data) && elementSize == sum(bs, elements, i) && (forall k :: 0 <= k && k < i ==> elements[k] != nil)
 
 //@ # ---------------------------------------------------------------- array.go: NewArrayFromBatchData (C05, C06, C17)
@@ -247,7 +271,7 @@ package atree
 //@        as(root, *ArrayDataSlab).header.count == len(as(root, *ArrayDataSlab).elements)
 //@   ensures err == nil ==> a != nil && a.Storage == storage && a.root != nil
 //@   ensures err != nil ==> a == nil
-//@   modifies heap, ghost.sto, ghost.stored, ghost.touched, alloc
+//@   modifies heap, ghost.sto, ghost.issued, ghost.stored, ghost.touched, alloc
 //@   loop 1: invariant dataSlab != nil && wfADS(dataSlab) && !dataSlab.inlined && dataSlab.extraData == nil
 //@   loop 1: invariant elemsFit(dataSlab)
 //@   loop 1: invariant !allocatedBefore(dataSlab) && dataSlab.header.size <= targetThreshold + maxInlineArrayElementSize
@@ -267,6 +291,8 @@ package atree
 //@   loop 3: invariant (forall j, k :: 0 <= j && j < k && k < len(slabs) ==> slabs[j] != slabs[k])
 
 //@ iface ArraySlab.Header() (h)
+//@   conform all
+//@   serves C01
 //@   ensures h == hdrOf(recv)
 //@   pure
 
@@ -283,7 +309,7 @@ package atree
 //@        (forall k :: 0 <= k && k < len(r) - 1 ==> len(as(r[k], *ArrayMetaDataSlab).childrenHeaders) == maxHdrs())
 //@   ensures err == nil ==> (forall j, k :: 0 <= j && j < k && k < len(r) ==> r[j] != r[k])
 //@   ensures err != nil ==> len(r) == 0
-//@   modifies ghost.touched, alloc
+//@   modifies ghost.touched, ghost.issued, alloc
 //@   loop 1: invariant 0 <= nextLevelSlabsIndex && len(slabs) == len(old(slabs)) && maxNumberOfHeadersInMetaSlab == maxHdrs()
 //@   loop 1: invariant metaSlab != nil && !allocatedBefore(metaSlab) && metaSlab.extraData == nil && len(metaSlab.childrenHeaders) == len(metaSlab.childrenCountSum) &&
 //@        metaSlab.header.size == 12 + 14 * len(metaSlab.childrenHeaders) && len(metaSlab.childrenHeaders) <= maxHdrs()
@@ -297,3 +323,48 @@ package atree
 //@   loop 1: invariant (forall k :: 0 <= k && k < nextLevelSlabsIndex ==> wfMeta0(as(slabs[k], *ArrayMetaDataSlab)) && as(slabs[k], *ArrayMetaDataSlab).extraData == nil &&
 //@        len(as(slabs[k], *ArrayMetaDataSlab).childrenHeaders) == maxHdrs() && as(slabs[k], *ArrayMetaDataSlab).header.size <= maxThreshold)
 //@   loop 1: invariant (forall j, k :: 0 <= j && j < k && k < nextLevelSlabsIndex ==> slabs[j] != slabs[k])
+
+//@ # ---------------------------------------------------------------- map.go: bulk build, one level up (C02 C05 C06 C17)
+//@ pred maxMapHdrs() = (maxThreshold - 12) / 18
+//@ # local well-formedness of a built map index slab (ordering of first keys is the ordering of the children handed in)
+//@ pred wfMMB(m *MapMetaDataSlab) = m != nil && len(m.childrenHeaders) >= 1 && m.header.firstKey == m.childrenHeaders[0].firstKey && m.header.size == 12 + 18 * len(m.childrenHeaders)
+
+//@ func nextLevelMapSlabs(storage, address, slabs) (r, err)  serves C02 C05 C06 C17
+//@   requires storage != nil && len(slabs) >= 1 && (forall k :: 0 <= k && k < len(slabs) ==> isMapSlab(slabs[k]))
+//@   ensures err == nil ==> len(r) >= 1 && len(r) <= len(slabs)
+//@   ensures err == nil ==> (forall k :: 0 <= k && k < len(r) ==> r[k] != nil && is(r[k], *MapMetaDataSlab) && !allocatedBefore(r[k]))
+//@   ensures[C02 C06] err == nil ==> (forall k :: 0 <= k && k < len(r) ==> wfMMB(as(r[k], *MapMetaDataSlab)) && as(r[k], *MapMetaDataSlab).extraData == nil)
+//@   ensures[C05 C17] err == nil ==> (forall k :: 0 <= k && k < len(r) ==> len(as(r[k], *MapMetaDataSlab).childrenHeaders) <= maxMapHdrs() && as(r[k], *MapMetaDataSlab).header.size <= maxThreshold) &&
+//@        (forall k :: 0 <= k && k < len(r) - 1 ==> len(as(r[k], *MapMetaDataSlab).childrenHeaders) == maxMapHdrs())
+//@   ensures err == nil ==> (forall j, k :: 0 <= j && j < k && k < len(r) ==> r[j] != r[k])
+//@   ensures err != nil ==> len(r) == 0
+//@   modifies ghost.touched, ghost.issued, alloc
+//@   loop 1: invariant 0 <= nextLevelSlabsIndex && len(slabs) == len(old(slabs)) && maxNumberOfHeadersInMetaSlab == maxMapHdrs()
+//@   loop 1: invariant metaSlab != nil && !allocatedBefore(metaSlab) && metaSlab.extraData == nil &&
+//@        metaSlab.header.size == 12 + 18 * len(metaSlab.childrenHeaders) && len(metaSlab.childrenHeaders) <= maxMapHdrs()
+//@   loop 1: invariant (i >= 1 ==> len(metaSlab.childrenHeaders) >= 1) && nextLevelSlabsIndex + ite(len(metaSlab.childrenHeaders) >= 1, 1, 0) <= i
+//@   loop 1: invariant (len(metaSlab.childrenHeaders) >= 1 ==> metaSlab.header.firstKey == metaSlab.childrenHeaders[0].firstKey) &&
+//@        (len(metaSlab.childrenHeaders) == 0 && i < len(slabs) ==> metaSlab.header.firstKey == mhdrOf(slabs[i]).firstKey)
+//@   loop 1: invariant (forall k :: i <= k && k < len(slabs) ==> slabs[k] == old(slabs)[k])
+//@   loop 1: invariant oldeq(MapMetaDataSlab.header) && oldeq(MapMetaDataSlab.childrenHeaders) && oldeq(MapMetaDataSlab.extraData) && oldeq(MapDataSlab.header)
+//@   loop 1: invariant (forall k :: 0 <= k && k < nextLevelSlabsIndex ==> slabs[k] != nil && is(slabs[k], *MapMetaDataSlab) && !allocatedBefore(slabs[k]) && slabs[k] != metaSlab)
+//@   loop 1: invariant (forall k :: 0 <= k && k < nextLevelSlabsIndex ==> wfMMB(as(slabs[k], *MapMetaDataSlab)) && as(slabs[k], *MapMetaDataSlab).extraData == nil &&
+//@        len(as(slabs[k], *MapMetaDataSlab).childrenHeaders) == maxMapHdrs() && as(slabs[k], *MapMetaDataSlab).header.size <= maxThreshold)
+//@   loop 1: invariant (forall j, k :: 0 <= j && j < k && k < nextLevelSlabsIndex ==> slabs[j] != slabs[k])
+
+//@ # ---- bulk build of a map from a digest-ordered element stream (C02 C05 C06 C17)
+//@ functype MapElementProvider() (k, v, err)
+//@   modifies alloc
+
+//@ # a finished leaf of the build: a plain first-level leaf whose header summarises its list, inside the size band
+//@ pred batchMapLeaf(d *MapDataSlab) = mdsPlain(d) && !allocatedBefore(d) && !allocatedBefore(mdsHk(d)) && mdsHdr(d) && plainHk(mdsHk(d)) &&
+//@      minThreshold <= d.header.size && d.header.size <= maxThreshold && len(mdsHk(d).hkeys) >= 1
+
+//@ # Only the interface facts are decided here (seed check, result shape); the leaf-packing invariant of the main loop (every finished
+//@ # leaf in band, digests ascending across leaves) is NOT under contract - the level builder nextLevelMapSlabs above is.
+//@ func NewMapFromBatchData(storage, address, digesterBuilder, typeInfo, comparator, hip, seed, fn) (m, err)  serves C17
+//@   requires storage != nil && digesterBuilder != nil && comparator != nil && hip != nil && fn != nil
+//@   ensures[C17] seed == 0 ==> err != nil && isFatal(err) && m == nil
+//@   ensures err == nil ==> m != nil && m.Storage == storage && m.root != nil && m.digesterBuilder == digesterBuilder
+//@   ensures err != nil ==> m == nil
+//@   modifies heap, ghost.sto, ghost.issued, ghost.stored, ghost.touched, ghost.refusals, alloc
